@@ -15,7 +15,7 @@
      detect_change_type cur prev   0 none, 1 patch, 2 minor, 3 major *)
 From Coq Require Import List ZArith NArith Bool.
 Import ListNotations.
-From WF Require Import Generated Model.Version Proofs.VersionProofs.
+From WF Require Import Generated Model.Version Proofs.VersionProofs Proofs.VersionStrings.
 Open Scope Z_scope.
 
 (* PEP 440 -> semver -> PEP 440 yields the normalized original: for every string of the modelled
@@ -38,6 +38,39 @@ Theorem C34_conversions_are_mutually_inverse : forall v, rel v <> [] ->
   parse_pep440 (render_pep440 v) = Some v.
 Proof. exact roundtrip_version. Qed.
 Print Assumptions C34_conversions_are_mutually_inverse.
+
+(* String level, any spelling of the numbers: for EVERY semver pre-release string
+   d(.d)*-label.d  (d = non-empty strings of ASCII digits, leading zeros allowed, any number of
+   components) whose label is a PEP 440 label, semver -> PEP 440 -> semver yields the normalized
+   original: the same string with every number re-rendered without leading zeros. *)
+Theorem C34_semver_string_and_back : forall d0 ds lb num,
+  digit_string d0 -> Forall digit_string ds -> digit_string num ->
+  exists p, semver_to_pep440 (sem_text d0 ds (label_chars lb) num) = S2P_ok p /\
+            pep440_to_semver p = Some (normalized_semver d0 ds lb num).
+Proof. exact semver_string_roundtrip. Qed.
+Print Assumptions C34_semver_string_and_back.
+
+Theorem C34_normalized_semver_is_the_rendered_form : forall d0 ds lb num,
+  normalized_semver d0 ds lb num =
+  sem_text (render_nat (parse_nat d0)) (map render_nat (map parse_nat ds)) (label_chars lb)
+           (render_nat (parse_nat num)).
+Proof. exact normalized_semver_is_rendered. Qed.
+Print Assumptions C34_normalized_semver_is_the_rendered_form.
+
+(* any other label is refused (ValueError), a final release passes through unchanged *)
+Theorem C34_unsupported_label_is_refused : forall d0 ds lab num,
+  digit_string d0 -> Forall digit_string ds -> letter_string lab -> digit_string num ->
+  existsb (str_eqb lab) c34_pep440_labels = false ->
+  semver_to_pep440 (sem_text d0 ds lab num) = S2P_bad_label.
+Proof. exact semver_to_pep440_unsupported_label. Qed.
+Print Assumptions C34_unsupported_label_is_refused.
+
+Theorem C34_final_release_passes_through : forall d0 ds,
+  digit_string d0 -> Forall digit_string ds ->
+  semver_to_pep440 (d0 ++ tail_of 46 ds) = S2P_ok (d0 ++ tail_of 46 ds) /\
+  parse_pep440 (d0 ++ tail_of 46 ds) = Some (mkV (map parse_nat (d0 :: ds)) None).
+Proof. exact final_release_text. Qed.
+Print Assumptions C34_final_release_passes_through.
 
 (* classification: "none" exactly when the new version is not greater *)
 Theorem C34_none_iff_not_greater : forall cur prev,
